@@ -240,6 +240,9 @@ def correspondence(ctx, corr):
     # with ELLIPSIS switched off again '...' must lose its meaning again (no verdict may be remembered)
     from . import C05 as _c05
     _c05.stateful_reuse(ctx, corr)
+    # multi-statement doctests whose ELLIPSIS (and other) flags come from default options, block directives and inline directives on
+    # statements of several shapes: '...' is a wildcard exactly in the statements where the flag is on
+    _c05.e2e_multi(ctx, corr, dir_names=['ELLIPSIS'])
     # the part-level check (DoctestPart.check: trailing portions of the output since the previous want, value repr) with
     # wants that start with / contain '...' under ELLIPSIS on and off: with the flag off '...' is ordinary text there too
     from . import C02 as _c02
@@ -278,7 +281,7 @@ def _fails(got, want):
 def search(ctx, corr, broken):
     from . import C05 as _c05
     from . import C02 as _c02
-    found = _c05.stateful_hits(corr)
+    found = _c05.stateful_hits(corr) + _c05.e2e_multi_hits(corr)
     for d in corr.disagreements:
         if d['suite'] != 'part_check' or len(found) >= 5:
             continue
@@ -338,6 +341,9 @@ def replay(ctx, failing):
     if failing.get('kind') == 'stateful':
         from . import C05 as _c05
         return _c05.replay_stateful(failing)
+    if failing.get('kind') == 'e2e_multi':
+        from . import C05 as _c05
+        return _c05.replay_e2e_multi(failing)
     i = failing['input']
     f = _fails(i['got'], i['want'])
     print('input: got=%r want=%r -> %s' % (i['got'], i['want'], f or 'agrees with the specification'))
